@@ -251,7 +251,7 @@ static void hist_case(Case& cs, const Profile& pf) {
   bo.full_hint_modes = pf.hint_modes;
   bo.any_tps = pf.any_tps;
   bo.allow_empty_cp = pf.empty_structs;
-  if (pf.small_blocks) bo.max_items = {0, 1, 2, 3, 5};
+  if (pf.small_blocks) bo.max_items = {0, 1, 2, 3, 5, 1, 2, 3, 0x100000001ull, 0x100000002ull, 0x1000000000003ull};   // a few limits that only differ from 1/2/3 above bit 31
   RefExporter ref;
   int comp, kind;
   unsigned nops;
